@@ -23,6 +23,15 @@ ARQ = ("Modelled, not verified: f64 rounding (exact integer lengths, multiples o
        "unbounded recursion, adequacy is a theorem under the arena invariant (depth < size by pigeonhole); stack depth on extremely deep trees. ")
 
 CLAIMS = {
+ "C19": dict(
+   text="Kernel-checked theorems on the exact-angle model of radial_layout, for every tree: exactly one segment (and labelled point) per non-root node, in pre-order; sibling wedges are "
+        "consecutive in child order, each starting where the previous one ends, of width leaves(child)/leaves(root); the wedges of a node's children together are exactly as wide as the "
+        "node's own wedge (nested; the root's children fill the full turn); for any direction on the unit circle the drawn segment has squared Euclidean length equal to the squared "
+        "branch length; rescaling commutes with the construction; a missing length is refused. PARTIAL by nature: cos, sin and rounding are modelled, not verified — the harness applies "
+        "the real cos/sin to the model's exact angles and compares every coordinate with the crate's within 1e-9 of the drawing's extent, and checks on the real layout: segment starts "
+        "at the parent's point, ends at the node's point, Euclidean length = branch length, direction = bisector of the wedge computed from leaf counts, labels, rescale.",
+   note=NOTE + "Modelled, not verified: f64 cos/sin/atan2 and rounding; the angle is a rational fraction of a turn in the model.",
+   technique="Lean 4 proofs on an exact-angle layout model (wedge partition, one segment per node, length identity on the unit circle) + coordinate-level differential execution within 1e-9", ref="5 C19"),
  "C17": dict(
    text="Kernel-checked theorems quantifying over EVERY outcome of the random choices (the generators are functions of an explicit oracle): for the ETE3-like generator and every "
         "sequence of front/back choices, and for the Yule generator and every sequence of valid candidate choices (Vec::swap_remove bookkeeping included), the loop never fails and "
